@@ -89,8 +89,8 @@ class Layout:
         self.user_kw = {"tag": 7, "other": "x"} if case.get("kw") else None
         bags = case["bags"]
         ba = bool(case.get("ba"))
-        if not bags or any(not b for b in bags) or any(not p for b in bags for p in b):
-            raise HarnessError("case has an empty bag or partition: %r" % (bags,))
+        if not bags or any(not b for b in bags):
+            raise HarnessError("case has an empty bag: %r" % (bags,))
         if self.m < 1 or self.wpc < 1 or self.spill < 0 or self.min_part < 0:
             raise HarnessError("bad config in case")
         self.bags: List[List[List[Tuple[bytes, int]]]] = []
@@ -117,6 +117,8 @@ class Layout:
         self.body = b"".join(data)
         self.expected = self.header + self.body + self.footer
         self.final_multi = self.has_writer and self.ftr_n is None and len(bags[-1][-1]) >= 2
+        self.empty_partitions = sum(1 for b in bags for p in b if not p)
+        self.adjacent_empty = any((not b[i]) and (not b[i + 1]) for b in bags for i in range(len(b) - 1))
         self.small_spill = self.has_writer and 0 < self.spill < self.m
         self.far_part = self.has_writer and self.min_part != 1
 
@@ -367,6 +369,12 @@ def _classify(L: Layout, T, stats: Optional[dict], nparts_written: int) -> None:
         T.cls("hdr_smaller_than_min")
     if L.final_multi:
         T.cls("final_partition_multi_chunk")
+    if L.empty_partitions:
+        T.cls("empty_partition")
+        if L.adjacent_empty:
+            T.cls("empty_partitions_adjacent")
+        if not L.bags[-1][-1]:
+            T.cls("empty_partition_last")
     if L.far_part:
         T.cls("min_part_gt_1")
     if L.has_writer and L.slack == 0:
@@ -479,6 +487,12 @@ def _mk_bag(parts: List[List[Tuple[bytes, int]]], mode: str):
     if mode == "seq":
         flat = [c for p in parts for c in p]
         return db.from_sequence(flat, npartitions=len(parts))
+    if any(len(p) == 0 for p in parts):
+        # from_sequence cannot make a partition without items; a partition that yields nothing is what e.g.
+        # Bag.filter / from_delayed produce
+        import dask
+
+        return db.from_delayed([dask.delayed(list, pure=False)(list(p)) for p in parts])
     bags = [db.from_sequence(list(p), npartitions=1) for p in parts]
     return bags[0] if len(bags) == 1 else db.concat(bags)
 
@@ -606,6 +620,39 @@ def s_case(draw, flags=(0, 0, 0), writer=True, l2=False):
         case["fuse"] = draw(st.sampled_from([False, False, True]))
         case["nthreads"] = draw(st.sampled_from([2, 3, 4]))
         case["scheds"] = ["random", "threads"]
+    return case
+
+
+@st.composite
+def s_empty_partitions(draw, l2=False):
+    """'however the stream of data chunks is split into partitions': partitions that hold no chunk at all (what
+    Bag.filter or an uneven from_delayed leave behind) - single, adjacent, leading, trailing, a whole sub-stream."""
+    case = draw(s_case(draw(st.sampled_from([(0, 0, 0), (0, 0, 0), (0, 1, 0), (0, 0, 1)])), l2=l2))
+    bags = case["bags"]
+    style = draw(st.sampled_from(["one", "adjacent", "adjacent", "ends", "whole_bag", "scatter"]))
+    b = bags[draw(st.integers(0, len(bags) - 1))]
+    if style == "one":
+        b.insert(draw(st.integers(0, len(b))), [])
+    elif style == "adjacent":
+        k = draw(st.integers(0, len(b)))
+        for _ in range(draw(st.sampled_from([2, 2, 3]))):
+            b.insert(k, [])
+    elif style == "ends":
+        bags[0].insert(0, [])
+        bags[-1].append([])
+        if draw(st.booleans()):
+            bags[-1].append([])
+    elif style == "whole_bag":
+        b[:] = [[] for _ in range(draw(st.integers(1, 3)))]
+    else:
+        for bb in bags:
+            for k in sorted(draw(st.lists(st.integers(0, len(bb)), min_size=0, max_size=3)), reverse=True):
+                bb.insert(k, [])
+    npart = sum(len(bb) for bb in bags)
+    k = 2 * npart if not l2 else 12
+    case["sched"] = draw(st.lists(st.integers(0, 7), min_size=k, max_size=k))
+    if l2:
+        case["modes"] = ["cut"] * len(bags)
     return case
 
 
@@ -764,6 +811,10 @@ def build(chk: Check) -> None:
             budget_s={"quick": 35, "thorough": 250}, cov={"quick": 4000, "thorough": 600000})
     chk.sub("l1_nowriter", o_l1, strategy=s_case((0, 0, 0), writer=False), n={"quick": 2000, "thorough": 60000},
             budget_s={"quick": 25, "thorough": 100})
+    chk.sub("l1_empty_partitions", o_l1, strategy=s_empty_partitions(), n={"quick": 3000, "thorough": 150000},
+            budget_s={"quick": 25, "thorough": 150})
+    chk.sub("l2_empty_partitions", o_l2, strategy=s_empty_partitions(l2=True), n={"quick": 150, "thorough": 5000},
+            budget_s={"quick": 25, "thorough": 200}, shrink=False)
     chk.sub("l2_dask", o_l2, strategy=s_case((0, 0, 0), l2=True), n={"quick": 700, "thorough": 20000},
             budget_s={"quick": 40, "thorough": 400}, shrink=not q)
     chk.sub("l2_dask_edge", o_l2, strategy=s_case("any", l2=True), n={"quick": 500, "thorough": 12000},
